@@ -163,6 +163,9 @@ def make_state(seed):
         first = "self, " if kind == "method_in_class" else ""
         args = ", ".join("%s=%s" % (p["name"], render.lit(p["default"]) if p["default"] is not None else "None") for p in desc["params"])
         src = 'def train(%s%s):\n    """ """\n    return %s\n' % (first, args, desc["params"][0]["name"])
+    if kind == "function" and ch.chance("noparams", 0.1):
+        # a description without any parameter, but with a return entry (numpydoc: the ReST parser needs at least one field)
+        src = 'def train() -> int:\n    """\n    Fetch the answer.\n\n    Returns\n    -------\n    int\n        the answer\n    """\n    return 42\n'
     if kind != "live_function" and ch.chance("qualified", 0.25):
         # annotations spelled through the module (typing.Optional[int], List[typing.Any]): names nested inside a subscript
         src = src.replace(": Optional[", ": typing.Optional[").replace(": Literal[", ": typing.Literal[").replace("Optional[List[", "Optional[typing.List[")
